@@ -23,6 +23,13 @@ def parseKindG? (s0 : String) : Option ((Kind × Bool × Bool) × Bool × Bool) 
   else if s0.endsWith "!G" then (parseKindF? (s0.dropEnd 2).toString).map (fun k => (k, false, true))
   else (parseKindF? s0).map (fun k => (k, false, false))
 
+/-- crash points, written last: `!x` - the thread dies right after its `upload_part` / `complete` call was carried
+out; `!X` - right after its `create_multipart_upload` was carried out (inside the publication window) -/
+def parseKindK? (s0 : String) : Option (((Kind × Bool × Bool) × Bool × Bool) × Bool × Bool) :=
+  if s0.endsWith "!x" then (parseKindG? (s0.dropEnd 2).toString).map (fun k => (k, true, false))
+  else if s0.endsWith "!X" then (parseKindG? (s0.dropEnd 2).toString).map (fun k => (k, false, true))
+  else (parseKindG? s0).map (fun k => (k, false, false))
+
 def parseKind? (s : String) : Option Kind := (parseKindF? s).map (·.1)
 
 def fmtId (i : Nat) : String := if i = 0 then "\"\"" else s!"id{i}"
@@ -77,15 +84,21 @@ def fmtLocalOutcome : Local.PC → String
   | .faulted => "TransientError"
   | _ => "running"
 
-def runLocal (fixed : Bool) (kfs : List (Kind × Bool × Bool)) (sched : List Nat) (preset : Bool := false)
-    (m : Option (List String) := none) : String :=
+def runLocal (fixed : Bool) (kks : List (((Kind × Bool × Bool) × Bool × Bool) × Bool × Bool)) (sched : List Nat)
+    (preset : Bool := false) (m : Option (List String) := none) : String :=
+  let kfs := kks.map (·.1.1)
   let ks := kfs.map (·.1)
+  let dfltK : ((Kind × Bool × Bool) × Bool × Bool) × Bool × Bool := (((.write 0, false, false), false, false), false, false)
   let cfg : Local.Cfg := { kind := kindOf ks, recheck := fixed,
                            faultCreate := fun t => (kfs.getD t (.write 0, false, false)).2.1,
-                           faultCall := fun t => (kfs.getD t (.write 0, false, false)).2.2 }
+                           faultCall := fun t => (kfs.getD t (.write 0, false, false)).2.2,
+                           crashCall := fun t => (kks.getD t dfltK).2.1 }
+  let crashC := fun t => (kks.getD t dfltK).2.2
+  let killed := fun t => (kks.getD t dfltK).2.1 || (kks.getD t dfltK).2.2
   let s0 := if preset then Local.initWithLock 1000 else Local.init
-  let (s, labels) := traceGen m (Local.step cfg) (Local.label cfg) s0 sched []
-  let outs := (List.range ks.length).map (fun t => fmtLocalOutcome (s.pc t))
+  let (s, labels) := traceGen m (Local.stepCrashC crashC cfg) (Local.label cfg) s0 sched []
+  let outs := (List.range ks.length).map (fun t =>
+    if s.pc t == .faulted && killed t then "Killed" else fmtLocalOutcome (s.pc t))
   let lock := match s.held with | none => "free" | some h => toString h
   s!"{",".intercalate labels} ; {",".intercalate (s.calls.reverse.map fmtCall)} ; uid={fmtId s.uploadId} ; {",".intercalate outs} ; lock={lock}"
 
@@ -100,18 +113,24 @@ def fmtDistOutcome : Dist.PC → String
   | .faulted => "TransientError"
   | _ => "running"
 
-def runDist (kgs : List ((Kind × Bool × Bool) × Bool × Bool)) (ws : List Nat) (sched : List Nat) (leftover : Option Nat := none)
-    (m : Option (List String) := none) : String :=
+def runDist (kks : List (((Kind × Bool × Bool) × Bool × Bool) × Bool × Bool)) (ws : List Nat) (sched : List Nat)
+    (leftover : Option Nat := none) (m : Option (List String) := none) : String :=
+  let kgs := kks.map (·.1)
+  let dfltK : ((Kind × Bool × Bool) × Bool × Bool) × Bool × Bool := (((.write 0, false, false), false, false), false, false)
+  let crashC := fun t => (kks.getD t dfltK).2.2
+  let killed := fun t => (kks.getD t dfltK).2.1 || (kks.getD t dfltK).2.2
   let kfs := kgs.map (·.1)
   let ks := kfs.map (·.1)
   let dflt : (Kind × Bool × Bool) × Bool × Bool := ((.write 0, false, false), false, false)
   let cfg : Dist.Cfg := { kind := kindOf ks, worker := fun t => ws.getD t 0,
                           faultCreate := fun t => (kfs.getD t (.write 0, false, false)).2.1,
                           faultCall := fun t => (kfs.getD t (.write 0, false, false)).2.2,
-                          spurGet1 := fun t => (kgs.getD t dflt).2.1 }
-  let (s, labels) := traceGen m (Dist.stepSpur2 (fun t => (kgs.getD t dflt).2.2) cfg) (Dist.label cfg)
+                          spurGet1 := fun t => (kgs.getD t dflt).2.1,
+                          crashCall := fun t => (kks.getD t dfltK).2.1 }
+  let (s, labels) := traceGen m (Dist.stepFx (fun t => (kgs.getD t dflt).2.2) crashC cfg) (Dist.label cfg)
     (Dist.initAfterPrep leftover) sched []
-  let outs := (List.range ks.length).map (fun t => fmtDistOutcome (s.pc t))
+  let outs := (List.range ks.length).map (fun t =>
+    if s.pc t == .faulted && killed t then "Killed" else fmtDistOutcome (s.pc t))
   let nw := (ws.foldl max 0) + 1
   let wids := (List.range nw).map (fun w => fmtId (s.wid w))
   let lock := match s.lock with | none => "free" | some h => toString h
@@ -273,12 +292,12 @@ def runProto (m : Option (List String)) (args : List String) : Option String :=
   match args with
   | ["local", fixed, ks, sched] => do
     let fixed ← parseBool? fixed
-    let ks ← parseList? parseKindF? ks
+    let ks ← parseList? parseKindK? ks
     let sched ← parseList? parseNat? sched
     pure (runLocal fixed ks sched false m)
   | ["local", fixed, ks, sched, "P"] => do
     let fixed ← parseBool? fixed
-    let ks ← parseList? parseKindF? ks
+    let ks ← parseList? parseKindK? ks
     let sched ← parseList? parseNat? sched
     pure (runLocal fixed ks sched true m)
   | ["distn", ks, ws, vn, ln, sched] => do
@@ -296,13 +315,13 @@ def runProto (m : Option (List String)) (args : List String) : Option String :=
     let sched ← parseList? parseNat? sched
     pure (runDistObj ks ws vn ln sched m)
   | ["dist", ks, ws, sched, left] => do
-    let ks ← parseList? parseKindG? ks
+    let ks ← parseList? parseKindK? ks
     let ws ← parseList? parseNat? ws
     let sched ← parseList? parseNat? sched
     let left ← if left = "S" then some (some 99) else if left = "N" then some none else none
     pure (runDist ks ws sched left m)
   | ["dist", ks, ws, sched] => do
-    let ks ← parseList? parseKindG? ks
+    let ks ← parseList? parseKindK? ks
     let ws ← parseList? parseNat? ws
     let sched ← parseList? parseNat? sched
     pure (runDist ks ws sched none m)
@@ -338,6 +357,20 @@ def run (args : List String) : Option String :=
   | ["seq", ops, "R"] => do
     let ops ← parseList? parseSeqOp? ops
     pure (runSeq ops Seq.resumed)
+  | ["sinkcrash", ws, ps, k] => do
+    let ws ← parseList? parseWrite? ws
+    let ps ← parseList? parseNat? ps
+    let k ← parseNat? k
+    let s := (ws.foldl Sink.write {}).finaliseCrash ps k
+    pure (fmtView s)
+  | ["seqpage", page, n, m] => do
+    let page ← parseNat? page
+    let n ← parseNat? n
+    let m ← parseNat? m
+    let s0 : Seq.State := { creates := n, active := (List.range n).map (· + 1) }
+    let s := cancelAllPagedN page m s0
+    let first := (cancelAllPaged page s0).2
+    pure s!"first-call={",".intercalate (first.map fmtSCall)} ; active-after-{m}={fmtList fmtId s.active}"
   | ["seqk", filtered, ops] => do
     let filtered ← parseBool? filtered
     let ops ← parseList? parseSeqKOp? ops
